@@ -104,6 +104,19 @@ class Ctx:
             self._ent_cache[k] = r
         return r
 
+    def bind(self, t, hint="v"):
+        """let-binding: a fresh constant defined equal to a large term (same term -> same constant)"""
+        k = t.get_id()
+        if not hasattr(self, "_binds"):
+            self._binds = {}
+        c = self._binds.get(k)
+        if c is None:
+            c = z3.Const(fresh_name(hint), t.sort())
+            self._binds[k] = c
+            self._binds[c.get_id()] = c
+            self.pc.append(c == t)
+        return c
+
     def prune(self, t, depth=0):
         """resolve If-conditions that the path condition decides (keeps index terms small)"""
         t = z3.simplify(t)
